@@ -331,6 +331,9 @@ def run(ctx):
     rule_r7(facts, ctx)
     rule_r9(facts, ctx)
     ctx.floor("C03.R9", 4, "writes of rpos/used (consume) and wpos/used (produce)")
+    from . import c02
+    c02.rule_r7(facts, ctx, rule_id="C03.R10")
+    ctx.floor("C03.R10", 1, "atomic commit: tags under the lock acquisition that advances wpos")
     c01.rule_r4(facts, ctx, rule_id="C03.R8")
     ctx.floor("C03.R8", 2, "consume and produce bodies write only their own position")
     ctx.floor("C03.R1", 8, "callers of full_buffer/slice/slice_mut/window constructors + raw slice + 2 &self->&mut accessors")
